@@ -18,6 +18,7 @@ with rationals as "num/den" strings (all exactly float64).
 from __future__ import annotations
 
 import itertools
+import json
 import os
 import math
 import warnings
@@ -52,8 +53,10 @@ PARTIAL = [
     "bool-valued operands combined with bool-valued operands (`np.add` is a logical or there, `np.subtract` refuses) and "
     "quotients whose result dtype is float32 (rounded to 24 bits) are left out of the dtype sweep; integer division by zero "
     "(0 with a warning) is not covered",
-    "in-place operators (`+=` …) are not defined: Python falls back to `x = x + y` (a new object, operands untouched) — covered "
-    "by the binary cases; unary `-`, `abs`, `**` and reflected `+ - /` are absent (TypeError, sampled in `sc` cases); "
+    "in-place operators (`+=` …) are not defined: Python falls back to `x = x + y` (a new object, operands untouched) — every "
+    "spelling (augmented, `operator.*`, dunder, ufunc call, `sum`) is compared with the infix operator on the same tree (`spell` "
+    "cases, oracle only: the Lean model answers the infix form in the `bin` / `sc` cases); ufunc calls with non-Python scalars "
+    "are NumPy's dispatch (not compared); unary `-`, `abs`, `**` and reflected `+ - /` are absent (TypeError, sampled in `sc` cases); "
     "BasisFunctionalData defines no arithmetic at all and its `==` is object identity (documented, not modelled)",
     "floating-point rounding of the results (model values are exact; compared at rtol 1e-9)",
     "non-finite *inputs* (inf/nan values as operands): == on them is only required to return a bool",
@@ -1342,6 +1345,7 @@ def gen_cases(rng: Rng, tier):
     yield from zoo_cases()
     yield from dtype_cases()
     yield from layout_cases()
+    yield from spell_cases()
     yield from bin_cases(rng, 130 * k)
     yield from derived_cases(rng, 45 * k)
     yield from decimal_cases(rng, 30 * k)
@@ -1612,7 +1616,171 @@ def run_impl(case):
         return run_eqnf(case)
     if case["kind"] == "share":
         return run_share(case)
+    if case["kind"] == "spell":
+        return run_spell(case)
     return {"bin": run_bin, "sc": run_sc, "ident": run_ident, "eq": run_eq, "mv": run_mv}[case["kind"]](case)
+
+
+# --------------------------------------------------------------------------
+# every spelling of an operator (augmented assignment, `operator.*`, dunder calls, NumPy ufunc calls, unary operators, `sum`)
+# --------------------------------------------------------------------------
+
+OPNAME = {"add": "add", "sub": "sub", "mul": "mul", "div": "truediv", "floordiv": "floordiv"}
+SYMBOL = {"add": "+", "sub": "-", "mul": "*", "truediv": "/", "floordiv": "//", "mod": "%", "pow": "**", "matmul": "@",
+          "and_": "&", "or_": "|", "xor": "^", "lshift": "<<", "rshift": ">>"}
+
+
+def _operator_binaries():
+    """By reflection: every binary operator of the `operator` module that has an in-place twin (`add`/`iadd`, ...)."""
+    import operator
+
+    return sorted(n for n in operator.__all__ if "i" + n in operator.__all__)
+
+
+def _operator_unaries():
+    import operator
+
+    return [n for n in ("neg", "pos", "abs", "invert", "inv") if n in operator.__all__]
+
+
+def _spellings(name):
+    """name: a name of `_operator_binaries()`.  Each spelling maps the two operands to the value of the expression."""
+    import operator
+
+    sp = {}
+    sym = SYMBOL.get(name)
+    if sym:
+        sp["infix"] = lambda a, b: eval("a " + sym + " b", {"a": a, "b": b})
+
+        def aug(a, b):
+            env = {"x": a, "b": b}
+            exec("x " + sym + "= b", env)
+            return env["x"]
+        sp["augmented"] = aug
+    sp["operator." + name] = getattr(operator, name)
+    sp["operator.i" + name] = getattr(operator, "i" + name)
+    dn = name.rstrip("_")
+
+    def dunder(a, b):
+        f = getattr(type(a), "__" + dn + "__", None)
+        r = f(a, b) if f is not None else NotImplemented
+        if r is NotImplemented:
+            g = getattr(type(b), "__r" + dn + "__", None)
+            r = g(b, a) if g is not None else NotImplemented
+        if r is NotImplemented:
+            raise TypeError("unsupported operand")
+        return r
+    if sym:
+        sp["dunder"] = dunder
+
+    def idunder(a, b):
+        f = getattr(type(a), "__i" + dn + "__", None)
+        r = f(a, b) if f is not None else NotImplemented
+        return dunder(a, b) if r is NotImplemented else r
+    if sym:
+        sp["in-place dunder"] = idunder
+    uf = {"add": np.add, "sub": np.subtract, "mul": np.multiply, "truediv": np.true_divide, "floordiv": np.floor_divide,
+          "mod": np.mod, "pow": np.power}.get(name)
+    if uf is not None:
+        sp["numpy ufunc"] = uf
+    if name == "add":
+        sp["sum"] = lambda a, b: sum([b], a)
+    return sp
+
+
+def _operand(d):
+    return mk_scalar(d["skind"], d["c"], (2, 3)) if d["k"] == "S" else build(d)
+
+
+def _outcome(f, mk):
+    a, b = mk()
+    sa, sb = (snapshot(a) if _is_grid(a) else None), (snapshot(b) if _is_grid(b) else None)
+    o = {}
+    try:
+        r = f(a, b)
+        if _is_grid(r):
+            o["res"] = read_obj(r)
+            o["alias"] = bool(r is a or r is b)
+        else:
+            o["other"] = type(r).__name__
+    except Exception as e:  # noqa: BLE001
+        o["err"] = _ecls(e)
+        o["msg"] = str(e)[:100]
+    o["untouched"] = bool((sa is None or snapshot(a) == sa) and (sb is None or snapshot(b) == sb))
+    return o
+
+
+def spell_cases():
+    """In every run: every spelling of every binary operator of the `operator` module (found by reflection) and the unary
+    operators, on compatible operands, on operands that differ in each respect the guards look at, and with scalars."""
+    g = [[0, 1, 2]]
+    d = D(g, [[1, 2, 3], [4, 5, 6]])
+    ir = I([(0, [[0, 1]], [1, 2]), (1, [[0, 1, 2]], [3, 4, 5])])
+    pairs = [
+        ("ok", d, D(g, [[2, 1, 4], [5, 2, 1]])), ("n_obs", d, D(g, [[2, 1, 4]])), ("n_obs", D(g, [[2, 1, 4]]), d),
+        ("n_obs", d, D(g, [[2, 1, 4], [5, 2, 1], [1, 1, 1]])), ("grid", d, D([[0, 1, 3]], [[2, 1, 4], [5, 2, 1]])),
+        ("n_points", d, D([[0, 1]], [[2, 1], [5, 2]])), ("dimension", d, D([[0, 1, 2], [0]], [[2, 1, 4], [5, 2, 1]])),
+        ("class", d, ir), ("class", ir, d),
+        ("ok", ir, I([(0, [[0, 1]], [2, 4]), (1, [[0, 1, 2]], [1, 2, 5])])), ("n_obs", ir, I([(0, [[0, 1]], [2, 4])])),
+        ("n_obs", I([(0, [[0, 1]], [2, 4])]), ir), ("n_obs", ir, I([(0, [[0, 1]], [2, 4]), (1, [[0, 1, 2]], [1, 2, 5]), (2, [[0, 1]], [1, 1])])),
+        ("grid", ir, I([(0, [[0, 2]], [2, 4]), (1, [[0, 1, 2]], [1, 2, 5])])),
+        ("ok", D([[0, 1], [0, 1, 2]], [[1, 2, 3, 4, 5, 6]]), D([[0, 1], [0, 1, 2]], [[2, 2, 1, 1, 4, 3]])),
+        ("n_obs", D([[0, 1], [0, 1, 2]], [[1, 2, 3, 4, 5, 6], [1, 1, 1, 1, 1, 1]]), D([[0, 1], [0, 1, 2]], [[2, 2, 1, 1, 4, 3]])),
+    ]
+    for x in (d, ir):
+        for sk, c in (("int", "2"), ("float", "1/2"), ("bool", "1"), ("npfloat64", "3/2"), ("npint64", "2"), ("str", "2"), ("array", "2")):
+            pairs.append(("scalar:" + sk, x, dict(k="S", skind=sk, c=c)))
+            pairs.append(("rscalar:" + sk, dict(k="S", skind=sk, c=c), x))
+    for name in _operator_binaries():
+        for resp, a, b in pairs:
+            yield dict(kind="spell", name=name, respect=resp, a=a, b=b)
+    for name in _operator_unaries():
+        for x in (d, ir):
+            yield dict(kind="spell", name=name, unary=True, respect="unary", a=x, b=x)
+
+
+def run_spell(case):
+    import operator
+
+    mk = lambda: (_operand(case["a"]), _operand(case["b"]))  # noqa: E731
+    if case.get("unary"):
+        f = getattr(operator, case["name"])
+        sym = {"neg": "-", "pos": "+", "invert": "~", "inv": "~"}.get(case["name"])
+        sp = {"operator." + case["name"]: lambda a, b: f(a)}
+        if sym:
+            sp["prefix"] = lambda a, b: eval(sym + "a", {"a": a})
+        else:
+            sp["builtin"] = lambda a, b: abs(a)
+        return dict(sp={k: _outcome(v, mk) for k, v in sp.items()})
+    a, b = mk()
+    inc = incompat(a, b) if _is_grid(a) and _is_grid(b) else None
+    return dict(incompat=inc, sp={k: _outcome(v, mk) for k, v in _spellings(case["name"]).items()})
+
+
+def _spell_oracle(case, impl):
+    vs = []
+    sp = impl["sp"]
+    dn = case["name"].rstrip("_")
+    key = lambda o: ("err", o["err"]) if "err" in o else (("res", json.dumps(o["res"], sort_keys=True)) if "res" in o else ("other", o["other"]))  # noqa: E731
+    ref_name = "infix" if "infix" in sp else ("prefix" if "prefix" in sp else [n for n in sorted(sp) if not n.startswith("operator.i")][0])
+    ref = sp[ref_name]
+    for nm, o in sp.items():
+        inplace = nm in ("augmented", "in-place dunder") or nm.startswith("operator.i")
+        entry = ("__i" if inplace else "__") + dn + "__"
+        what = f"`{nm}` spelling of `{case['name']}` ({case['respect']})"
+        if not o["untouched"]:
+            vs.append(dict(clause="operands_untouched", entry=entry, causes=["spelling_mutates"], msg=f"{what}: an operand was modified (every spelling builds a new object)"))
+        if "res" in o and o.get("alias"):
+            vs.append(dict(clause="operands_untouched", entry=entry, causes=["spelling_aliases"], msg=f"{what}: the result IS one of the operands"))
+        if impl.get("incompat") and "err" not in o:
+            vs.append(dict(clause="rejects", entry=entry, causes=["spelling_unguarded"], msg=f"{what}: operands incompatible ({impl['incompat']}) yet no error: {key(o)[1][:160]}"))
+        sk = case["respect"].split(":")[1] if ":" in case["respect"] else None
+        if sk is not None and ((nm == "numpy ufunc" and sk not in ("int", "float", "bool")) or (case["respect"].startswith("rscalar") and sk in NUMPY_LEFT)):
+            continue            # NumPy's own dispatch (its scalar / array on the left, or converted by the ufunc machinery)
+        if key(o)[0] != key(ref)[0] or (key(o)[0] != "err" and key(o) != key(ref)):
+            vs.append(dict(clause="pointwise" if "err" not in ref else "rejects", entry=entry, causes=["spelling_differs"],
+                           msg=f"{what}: {key(o)[0]} {key(o)[1][:140]} but `{ref_name}` gives {key(ref)[0]} {key(ref)[1][:140]}"))
+    return vs
 
 
 # --------------------------------------------------------------------------
@@ -1802,6 +1970,8 @@ def oracle(case, impl):
                      msg=f"crash {impl['__crash__']}: {impl.get('msg')} {impl.get('tb', '')[-300:]}")]
     k = case["kind"]
     vs = []
+    if k == "spell":
+        return _spell_oracle(case, impl)
     if k == "share":
         entry = {"eq": "__eq__", "in": "__contains__", "index": "index", "count": "count", "remove": "remove"}[case["mode"]]
         what = f"b shares the {case['share']} object of a ({case['via']}, {case['tag']}) and differs in the {'grid' if case['share'] == 'values' else 'values'}"
@@ -1977,6 +2147,8 @@ def classify(case, impl):
         tags.append(f"sc:{'r' if case['reflected'] else ''}{case['op']}:{case['skind']}:{impl.get('err', 'ok')}")
         if F(case["c"]) == 0 and case["op"] in ("div", "floordiv") and not case["reflected"]:
             tags.append("sc:zero-divisor:" + impl.get("err", "ok"))
+    elif k == "spell":
+        tags += [f"spell:{case['name']}:{case['respect']}:{nm}:{'err' if 'err' in o else 'ok'}" for nm, o in impl["sp"].items()][:3]
     elif k == "ident":
         tags.append("ident:" + case["a"]["k"] + str(dim_of(case["a"])) + "d")
     elif k == "eq":
